@@ -9,7 +9,71 @@ from contracts import gens
 from pyvc import concrete
 
 
+def _linalg_args(lem, rng):
+    """arguments for the GF(2) linear-algebra lemmas (dot_*, ordg_is_dot, lead_*, rank_*)"""
+    name = lem.name
+    m = int(rng.integers(0, 4))
+    cols = int(rng.integers(1, 4))
+    M = rng.integers(-2, 3, size=(max(m, 1) + 1, cols)).astype(np.int64)
+    c = int(rng.integers(0, cols))
+    if name == 'dot_shift':
+        o1, o2 = int(rng.integers(0, 3)), int(rng.integers(0, 3))
+        win = rng.integers(-2, 3, size=m)
+        u = rng.integers(-2, 3, size=o1 + m + 2); v = rng.integers(-2, 3, size=o2 + m + 2)
+        u[o1:o1 + m] = win; v[o2:o2 + m] = win
+        return {'u': u, 'o1': o1, 'v': v, 'o2': o2, 'M': M, 'm': m, 'c': c}
+    if name == 'dot_add':
+        off = int(rng.integers(0, 3))
+        u = gens.bits(rng, off + m + 1); v = gens.bits(rng, off + m + 1)
+        return {'u': u, 'v': v, 'w': (u + v) % 2, 'off': off, 'M': M, 'm': m, 'c': c}
+    if name == 'dot_unit':
+        off = int(rng.integers(0, 3)); row = int(rng.integers(0, m + 2))
+        u = rng.integers(-2, 3, size=off + m + 1)
+        u[off:off + m] = [1 if k == row else 0 for k in range(m)]
+        M = rng.integers(-2, 3, size=(max(m, row) + 1, cols)).astype(np.int64)
+        return {'u': u, 'off': off, 'M': M, 'm': m, 'c': c, 'row': row}
+    if name == 'ordg_is_dot':
+        return {'crow': gens.bits(rng, m + 1), 'gs': gens.bits(rng, m + 1, cols), 'n': m, 'c': c}
+    if name == 'lead_char':
+        n = int(rng.integers(1, 6)); i = int(rng.integers(0, n))
+        row = gens.bits(rng, n); row[:i] = 0; row[i] = 1
+        return {'row': row, 'n': n, 'i': i}
+    if name == 'lead_zero':
+        n = int(rng.integers(0, 6))
+        return {'row': np.zeros(n + 1, dtype=np.int64), 'n': n}
+    if name == 'lead_range':
+        n = int(rng.integers(0, 6))
+        return {'row': gens.bits(rng, n + 1), 'n': n}
+    if name in ('rank_swap', 'rank_rowadd', 'rank_echelon'):
+        nr, nc = int(rng.integers(1, 5)), int(rng.integers(1, 5))
+        A = gens.bits(rng, nr, nc)
+        if name == 'rank_swap':
+            i, k = int(rng.integers(0, nr)), int(rng.integers(0, nr))
+            B_ = A.copy(); B_[[i, k]] = B_[[k, i]]
+            return {'A': A, 'B': B_, 'nr': nr, 'nc': nc, 'i': i, 'k': k}
+        if name == 'rank_rowadd':
+            j, r = int(rng.integers(0, nr)), int(rng.integers(0, nr))
+            B_ = A.copy()
+            if j != r:
+                B_[j] = (A[j] + A[r]) % 2
+            return {'A': A, 'B': B_, 'nr': nr, 'nc': nc, 'j': j, 'r': r}
+        # a random echelon form: strictly increasing leading columns, arbitrary entries to the right, zero rows below
+        r = int(rng.integers(0, min(nr, nc) + 1))
+        leads = sorted(rng.choice(nc, size=r, replace=False).tolist())
+        E = np.zeros((nr, nc), dtype=np.int64)
+        for k, l in enumerate(leads):
+            E[k, l] = 1
+            E[k, l + 1:] = gens.bits(rng, nc - l - 1)
+        if rng.integers(0, 4) == 0 and nr > r:          # sometimes NOT an echelon form: requires must filter it out
+            E[nr - 1, int(rng.integers(0, nc))] = 1
+        return {'A': E, 'nr': nr, 'nc': nc, 'r': r}
+    return None
+
+
 def _rand_args(lib, lem, rng):
+    la = _linalg_args(lem, rng)
+    if la is not None:
+        return la
     """concrete arguments for a lemma, by parameter name/type conventions of contracts/*.py"""
     N = int(rng.integers(1, 4))
     gs, ps = gens.rand_tableau(rng, N)
